@@ -606,6 +606,21 @@ def rw_R26_find(text, log, where):
         text = text[:k] + new + text[c + 1:]
 
 
+def rw_assert_eq(text, log, where):
+    """assert_eq!(A, B [, msg..]) -> assert!((A) == (B))  (same panic condition)"""
+    while True:
+        masked = mask_code(text)
+        m = re.search(r'\bassert_eq!\s*\(', masked)
+        if not m:
+            return text
+        o = m.end() - 1
+        c = match_close(masked, o)
+        args = split_top_commas(text[o + 1:c])
+        new = 'assert!((%s) == (%s))' % (args[0], args[1])
+        log.append({'rule': 'R3e', 'where': where, 'before': text[m.start():c + 1], 'after': new})
+        text = text[:m.start()] + new + text[c + 1:]
+
+
 def rw_R9_is_some_and(text, log, where):
     while True:
         masked = mask_code(text)
@@ -657,7 +672,8 @@ def rw_mut_param(sig, body, log, where):
         return sig, body
     for nm in names:
         sig = re.sub(r'([(,]\s*)mut\s+' + nm + r'(\s*:)', r'\1' + nm + r'\2', sig)
-    lets = ''.join(' let mut %s = %s;' % (nm, nm) for nm in names)
+    # the entry value stays nameable in loop invariants as <name>_0 (ghost copy: no effect on the executable code)
+    lets = ''.join(' let ghost %s_0 = %s; let mut %s = %s;' % (nm, nm, nm, nm) for nm in names)
     body = '{' + lets + body[1:]
     log.append({'rule': 'R15m', 'where': where, 'params': names})
     return sig, body
@@ -781,6 +797,7 @@ def apply_text_rules(text, log, where, opts):
     text = rw_R22_bestmove(text, log, where)
     text = rw_R3_format(text, log, where)
     text = rw_panic_args(text, log, where)
+    text = rw_assert_eq(text, log, where)
     text = rw_assert_msg(text, log, where)
     text = rw_R9_is_some_and(text, log, where)
     text = rw_R16_position(text, log, where)
@@ -820,6 +837,7 @@ class Unit:
         self.functions = []   # {name, file, scope, out_name, line_start, line_end}
         self.types = []
         self.subst_rules = {}  # name -> list of (before, after) from //@SUBST
+        self.rsubst_rules = {}
         self.statics = {}
         self.aspect_mods = []
         self.conjunction_rule = []
@@ -854,6 +872,13 @@ class Unit:
                 # //@STATIC NAME => accessor_expr
                 mm = re.match(r'//@STATIC\s+(\S+)\s*=>\s*(.*)$', st)
                 self.statics[mm.group(1)] = mm.group(2).strip()
+                i += 1
+            elif st.startswith('//@RSUBST'):
+                # //@RSUBST key :: python-regex ==> replacement with \\1.. backreferences (pattern-shaped instances of a rule)
+                mm = re.match(r'//@RSUBST\s+(\S+)\s*::\s*(.*?)\s*==>\s*(.*)$', st)
+                if not mm:
+                    raise ExtractError('bad RSUBST directive: ' + st)
+                self.rsubst_rules.setdefault(mm.group(1), []).append((mm.group(2), mm.group(3)))
                 i += 1
             elif st.startswith('//@SUBST'):
                 # //@SUBST key :: before ==> after     (closed list R4/R6/R7/R10/R11/R12 instances)
@@ -1012,8 +1037,13 @@ class Unit:
             outp.append(fbody[lastp:]); fbody = ''.join(outp)
         sig, fbody = rw_R15_mut_self(sig, fbody, self.log, where)
         sig, fbody = rw_mut_param(sig, fbody, self.log, where)
-        o2 = {'subst': self.subst_rules.get(name, []) + self.subst_rules.get(where, []),
+        o2 = {'subst': self.subst_rules.get(name, []) + self.subst_rules.get(where, []) + (self.subst_rules.get(where.replace(' ', '_'), []) if ' ' in where else []),
               'subst_opt': self.subst_rules.get('*', [])}
+        for rx_, rep_ in self.rsubst_rules.get(name, []):
+            if not re.search(rx_, fbody):
+                raise ExtractError('substitution anchor lost in %s: /%s/' % (where, rx_))
+            self.log.append({'rule': 'Rsub', 'where': where, 'before': '/' + rx_ + '/', 'after': rep_, 'count': len(re.findall(rx_, fbody))})
+            fbody = re.sub(rx_, rep_, fbody)
         fbody = apply_text_rules(fbody, self.log, where, o2)
         if self.statics:
             fbody = rw_R13_oncelock(fbody, self.log, where, self.statics)
